@@ -268,13 +268,13 @@ func TestVerif_C01(t *testing.T) {
 		// carries an index, next to the first dynamic index 62.
 		statOps := append(c01Ops(c01Labels(c01StaticOps())...), c01Ops("F(k=v)", "F(k=w)", "S(k=w)", "End")...)
 		statSeeds := [][]c01Op{nil, c01Ops("F(k=v)", "End"), c01Ops("Peer(0)")}
-		dStat := 3
+		dStat := vx.Pick(c, 2, 3) // quick: every one-field block; thorough: every block of one or two fields
 		// the two ends of the static table and the first dynamic entry, deeper and with size changes
 		edgeOps := c01Ops("F(:authority=)", "F(:authority=zz)", "S(:authority=zz)", "F(:method=GET)",
 			"F(via=)", "F(via=zz)", "F(www-authenticate=)", "F(www-authenticate=zz)", "S(www-authenticate=zz)",
 			"F(k=v)", "F(k=w)", "S(k=w)", "End", "Peer(0)", "Peer(4096)")
 		dEdge := vx.Pick(c, 5, 6)
-		c.Rule(fmt.Sprintf("static table (RFC 7541 Appendix A; an index i <= 61 is static entry i, 62 is the newest dynamic entry), same search and oracle. part seq-static: depth %d from the initial state and from the seeds %v (table empty / holding k=v at index 62 / of size 0, where literals are written without indexing) over {%s}: for each of the 61 static entries F(name=value) is an exact match (Indexed Header Field 1..61), and for each of the 52 distinct static names F(name=%s) / S(name=%s) is a name-only match (literal with incremental indexing / without indexing / never indexed whose name index is the last static index of that name: 1, 3, 5, 7, 14..61); k=v / k=w are the same representations at the first dynamic index 62; at most two fields are written into one block here, so depth 3 = every block of one or two such fields and every one-field block followed by a write. part seq-static-edge: depth %d from the initial state over {%s} (first static index 1, last static indexes 60 and 61, first dynamic index 62 - also as entries that were themselves inserted from a static name - with table-size changes). The evidence outcomes idx:<class> list on which side of the 61|62 boundary the indexes of accepted blocks were",
+		c.Rule(fmt.Sprintf("static table (RFC 7541 Appendix A; an index i <= 61 is static entry i, 62 is the newest dynamic entry), same search and oracle. part seq-static: depth %d from the initial state and from the seeds %v (table empty / holding k=v at index 62 / of size 0, where literals are written without indexing) over {%s}: for each of the 61 static entries F(name=value) is an exact match (Indexed Header Field 1..61), and for each of the 52 distinct static names F(name=%s) / S(name=%s) is a name-only match (literal with incremental indexing / without indexing / never indexed whose name index is the last static index of that name: 1, 3, 5, 7, 14..61); k=v / k=w are the same representations at the first dynamic index 62; depth 2 = every one-field block, depth 3 = every block of one or two such fields and every one-field block followed by a write (at most two fields are written into one block here). part seq-static-edge: depth %d from the initial state over {%s} (first static index 1, last static indexes 60 and 61, first dynamic index 62 - also as entries that were themselves inserted from a static name - with table-size changes). The evidence outcomes idx:<class> list on which side of the 61|62 boundary the indexes of accepted blocks were",
 			dStat, statSeeds[1:], lab(statOps), c01OtherValue, c01OtherValue, dEdge, lab(edgeOps)))
 		c.Rule(fmt.Sprintf("breadth-first search over every sequence of operations {%s} on one real Encoder + one real Decoder (NewDecoder(4096)) + an RFC 7541 reference decoder: part seq-seeded = depth %d from seed states whose tables hold 1, 2(, 3 in the thorough tier) small entries (seeds %v), part seq = depth %d from the initial state; states deduplicated on (encoder table/maxSize/minSize/tableSizeUpdate/maxSizeLimit, decoder table/maxSize/allowedMax, reference table, open block fields+bytes, size-change model). F/S write a (sensitive) field into the open block; End feeds the block to Decoder.Write in one piece + Close and compares emitted fields, errors, all three tables and the table index maps; Peer(v)=dec.SetAllowedMaxDynamicTableSize(v)+enc.SetMaxDynamicTableSize(v), Limit(w)=enc.SetMaxDynamicTableSizeLimit(w), both only between blocks. non-trivial = an applied transition whose comparisons were made (a branch is pruned after a divergence); distinct = distinct (representation kinds, size updates, block bytes) of accepted blocks", lab(ops), d1, seeds, d0))
 		c.Rule(fmt.Sprintf("part seq-blocks: the same search to depth %d from the initial state over {%s}, where B(f) is a complete one-field header block (write f, End)", dBlocks, lab(blockOps)))
